@@ -361,6 +361,19 @@ def run(ctx):
                     f = 'exception-%s: %s' % (c['op'], type(ex).__name__ + ':' + str(ex)[:100])
                 if f:
                     ctx.report(c, 'failure', f)
+    # solve with a CONSTANT right-hand side and a matrix polynomial whose odd orders vanish (A(t) = A0 + t^2 A2 + ...)
+    for P_ in (1, 2):
+        A_ = ops.gen_square(rng, 4, P_, 2)
+        A_[1::2] = 0
+        c = {'op': 'solve', 'D': 4, 'P': P_, 'sub': 'ua', 'x': A_, 'y': rand_coeffs(rng, (2, 2), -2, 2)}
+        ctx.evaluations += 1
+        ctx.count('op=solve:sparse-constant-rhs')
+        try:
+            f = check(ctx, c)
+        except Exception as ex:
+            f = 'exception-%s: %s' % (c['op'], type(ex).__name__ + ':' + str(ex)[:100])
+        if f:
+            ctx.report(c, 'failure', f)
     # trace of every rectangular shape up to 5 x 5 (tall by one, by two or more rows, wide), on every run
     for (r_, c_) in [(a_, b_) for a_ in range(1, 6) for b_ in range(1, 6)]:
         D, P = rng.randint(1, 3), rng.randint(1, 2)
@@ -372,8 +385,9 @@ def run(ctx):
             ctx.report(c, 'failure', f)
     # expm_higham_2005 with directions whose norms lie in different Pade ranges, in both orders (the order must be the one the
     # largest direction needs)
-    for amps in [(1e-3, 1.9), (1.9, 1e-3), (0.05, 0.6), (0.6, 0.05), (0.2, 1.2, 1e-3)]:
-        D, P, n = rng.randint(1, 3), len(amps), rng.randint(2, 3)
+    for k_, amps in enumerate([(1e-3, 1.9), (1.9, 1e-3), (0.05, 0.6), (0.6, 0.05), (0.2, 1.2, 1e-3), (1e-3, 1.9), (0.05, 0.6, 1.9), (0.2, 0.01)]):
+        # (the last three with D = 1: for D > 1 the method takes the highest order whatever the norms)
+        D, P, n = (1 if k_ >= 5 else rng.randint(1, 3)), len(amps), rng.randint(2, 3)
         x = rand_coeffs(rng, (D, P, n, n), -0.5, 0.5)
         for p_, amp in enumerate(amps):
             a = rand_coeffs(rng, (n, n), -1, 1) * 0.002
